@@ -509,8 +509,9 @@ theorem inSt2_inv {G : U32 → Content} {sn0 : U32} {st1 : InLoop} {dl : List Co
   unfold inSt2
   simp only []
   split
-  · exact ⟨((parseAck_rcvSame _ _).trans (parseFastack_rcvSame _ _ _)).conv,
-      n, Nat.le_refl _, h.same ((parseAck_rcvSame _ _).trans (parseFastack_rcvSame _ _ _))⟩
+  · have hs := ((parseAck_rcvSame st1.k hd.sn).trans (shrinkBuf_rcvSame _)).trans
+      (parseFastack_rcvSame (shrinkBuf (parseAck st1.k hd.sn)) hd.sn hd.ts)
+    exact ⟨hs.conv, n, Nat.le_refl _, h.same hs⟩
   · split
     · rename_i hpush
       split
